@@ -32,12 +32,14 @@ for pid in ALL:
         "level_claimed": {
             "category": "other",
             "text": ("Static analysis (no execution): decides structural necessary conditions of the property on every path of the "
-                     "compiled program, for all inputs/schedules/histories — NOT the behaviour itself. Decided: " + " | ".join(P["decided"]) +
+                     "compiled program, for all inputs/schedules/histories — NOT the behaviour itself. Decided: " + " | ".join(E.decided_clauses(pid)) +
                      " || Not decided (runtime-valued): " + " | ".join(P["not_decided"])),
             "design_ref": "DESIGN.md §5 " + pid,
         },
         "level_note": ("Trusted: rustc nightly MIR (mir-opt-level 0) and callee resolution; reviewed external-API tables (rules/tables.py); "
-                       "crate-private role names (rules/common.py) fail closed when renamed; unix build only. Rules: " + rules),
+                       "crate-private role names (rules/common.py): pure renames are re-anchored by signature (rules/rename.py), anything else fails closed; "
+                       "unix build only. The rules run on a normal form of the MIR (extracted helpers inlined, Option/Result/iterator combinators "
+                       "desugared: DESIGN.md §3.9). Rules: " + rules),
         "technique": "static analysis: custom MIR rules (rustc_private driver + " + P.get("technique", "guard-cut / call-graph / value-flow rules") + ")",
     })
 na = [{"property_id": p, "reason": NA_REASON.get(p, "no structural clause implemented yet; see DESIGN.md §5")} for p in ALL if p not in E.PROPERTIES]
@@ -55,14 +57,16 @@ man = {
         "name": "mir-rules",
         "path": "/verif/engine (fact driver, Rust, rustc_private) + /verif/rules (rules, Python 3 stdlib)",
         "serves_properties": [c["property_id"] for c in checks],
-        "kind_free_text": "static analysis over type-checked MIR: surface (who-may-call), guard-cut (P-cut with constant-flag sensitivity), "
-                          "mode-context analysis, leaf provenance, taint, error discipline, table extraction, panic inventory",
+        "kind_free_text": "static analysis over type-checked MIR brought into a normal form (helper inlining, combinator desugaring, rename "
+                          "re-anchoring): surface (who-may-call), guard-cut (P-cut over the product of the CFG with constant flags, enum "
+                          "variants and their payloads), mode-context analysis, leaf provenance, taint, error discipline, table extraction, "
+                          "panic inventory",
     }],
     "checks": checks,
     "not_applicable": na,
     "notes": ("Technique family: static analysis only. Every claimed check decides named structural clauses (necessary conditions) "
               "and says so in level_claimed.text and in the evidence ('decided' / 'not_decided'); behavioural clauses that quantify over "
-              "runtime values are not decided. /repo carries three unguarded `fix:` commits for genuine defects found by the rules "
+              "runtime values are not decided. /repo carries four unguarded `fix:` commits for genuine defects found by the rules "
               "(see known_findings.json, DESIGN.md §6). Exit codes: 0 held, 1 violation (VIOLATION line), 2 checker broken."),
 }
 json.dump(man, open(os.path.join(V, "MANIFEST.json"), "w"), indent=1)
